@@ -115,8 +115,20 @@ fn eval(ctx: &Ctx, case: &Case) -> Verdict {
     let containers = [Container::Vcf, Container::VcfGz(case.vcf_layout.clone()), Container::Bcf(case.bcf_layout.clone()), Container::BcfRaw];
     let rendered: Vec<(Vec<u8>, usize)> = containers.iter().map(|c| render(&case.cs, c)).collect();
     let t_render = t0.elapsed().as_secs_f64();
+    // one further option per case (decided by the draws): none, a projection in either spelling,
+    // --strict, verbose or quiet logging -- none of them may make the result depend on the container
+    let pops = case.map.pop_sizes().len();
+    let variant = (case.draws[3] >> 4) % 7;
     let base_opts = CreateOpts {
         map: Some(case.map.clone()),
+        project: match variant {
+            1 => Some(crate::props::common::Projection { m: vec![1; pops], individuals: false }),
+            2 => Some(crate::props::common::Projection { m: vec![2; pops], individuals: true }),
+            _ => None,
+        },
+        strict: variant == 3,
+        verbose: if variant == 4 { 2 } else { 0 },
+        quiet: if variant == 5 { 1 } else { 0 },
         ..Default::default()
     };
     let mut reference: Option<(cli::Run, String)> = None;
@@ -215,13 +227,14 @@ fn eval(ctx: &Ctx, case: &Case) -> Verdict {
         pass.add_label("large-cohort");
     }
     pass.add_label(format!("populations={}", case.map.pop_sizes().len()));
+    pass.add_label(format!("extra-option={}", ["none", "--project-shape 2..", "-p 1..", "--strict", "-vv", "-q", "none"][variant as usize]));
     Ok(pass)
 }
 
 pub fn check(ctx: &Ctx) -> Check {
     let parts: Vec<Box<dyn Part>> = vec![Box::new(RandomPart {
         name: "containers-transports-threads",
-        rule: "diploid call sets (incl. large cohorts of 120..400 samples so that 64 KiB blocks occur, and ~12% call sets that make the run fail) rendered as vcf / bgzf-vcf / bgzf-bcf / raw bcf with generated BGZF layouts (one line per block, 1-byte blocks, cuts inside lines and BCF records, 64 KiB payloads, stored/compressed, empty blocks first/middle/last, with and without EOF marker) x {path, stdin from file, stdin from pipe, a pipe named by path (/dev/stdin), a named pipe (mkfifo)} x BCF dictionaries with GT at index 5 or above 127 x --threads from {1,2,3,4,8,16} x repeated executions (unpinned, pinned to one CPU, pinned to two CPUs) x four environments (Turkish/German locale, exotic time zone, RUST_LOG=trace, HOME unset-like, forced colour); >=3 populations of unequal size: ALL executions of a case must have byte-identical stdout and equal exit status (~24 executions per case); non-trivial = an input of >=3 BGZF blocks",
+        rule: "diploid call sets (incl. large cohorts of 120..400 samples so that 64 KiB blocks occur, and ~12% call sets that make the run fail) rendered as vcf / bgzf-vcf / bgzf-bcf / raw bcf with generated BGZF layouts (one line per block, 1-byte blocks, cuts inside lines and BCF records, 64 KiB payloads, stored/compressed, empty blocks first/middle/last, with and without EOF marker) x {path, stdin from file, stdin from pipe, a pipe named by path (/dev/stdin), a named pipe (mkfifo)} x BCF dictionaries with GT at index 5 or above 127 x --threads from {1,2,3,4,8,16} x repeated executions (unpinned, pinned to one CPU, pinned to two CPUs) x one further option per case (none / --project-shape / -p / --strict / -vv / -q) x four environments (Turkish/German locale, exotic time zone, RUST_LOG=trace, HOME unset-like, forced colour); >=3 populations of unequal size: ALL executions of a case must have byte-identical stdout and equal exit status (~24 executions per case); non-trivial = an input of >=3 BGZF blocks",
         cases: ctx.tier.pick(120, 3000),
         strategy: Box::new(|| strategy().boxed()),
         eval: Box::new(eval),
